@@ -98,6 +98,15 @@ Definition check_impl (k : cmd * list (N * list alt) * list N * list N) : bool :
       set_eq_N (unused_sites c aenv0) unused
   end.
 
+(* (I) with loop exits: Model/ReachX.v (break / continue are flow edges) *)
+Definition check_implx (k : cmd * list (N * list alt) * list N * list N) : bool :=
+  match k with
+  | (c, obs, e02s, unused) =>
+      forallb (fun ra => set_eq_alt (seenx c aenv0 (fst ra)) (snd ra)) obs &&
+      set_eq_N (filter (fun r => e02x c aenv0 r) (map fst (reads c))) e02s &&
+      set_eq_N (unused_sitesx c aenv0) unused
+  end.
+
 (* (R): CPython's trace under a decision list vs the interpreter of Model/Sem.v; the observed
    trace ends at the first NameError *)
 Fixpoint cut_at_none (t : trace) : trace :=
@@ -161,7 +170,7 @@ Definition check_sound_instance (k : cmd * list nat * trace) : bool :=
   end.
 '''
 
-IMPORTS = ['Model.PyCore', 'Model.Reach', 'Model.Sem', 'Model.SemX', 'Proofs.ReachComplete']
+IMPORTS = ['Model.PyCore', 'Model.Reach', 'Model.ReachX', 'Model.Sem', 'Model.SemX', 'Proofs.ReachComplete']
 
 
 def impl_case_term(tree_body, obs):
